@@ -50,6 +50,10 @@ type Muxer struct {
 	// We use map[uint32] instead map[uint16] as go runtime provide optimized hash functions for (u)int32/64 keys
 	esContexts              map[uint32]*esContext
 	tablesRetransmitCounter int
+
+	// continuity counters of removed streams: a PID that is added again must carry on counting
+	// where it stopped, otherwise receivers detect a discontinuity and drop what they were assembling
+	removedCCs map[uint32]wrappingCounter
 }
 
 type esContext struct {
@@ -140,7 +144,12 @@ func (m *Muxer) AddElementaryStream(es PMTElementaryStream) error {
 
 	m.pmt.ElementaryStreams = append(m.pmt.ElementaryStreams, &es)
 
-	m.esContexts[uint32(es.ElementaryPID)] = newEsContext(&es)
+	ctx := newEsContext(&es)
+	if cc, ok := m.removedCCs[uint32(es.ElementaryPID)]; ok {
+		ctx.cc = cc
+		delete(m.removedCCs, uint32(es.ElementaryPID))
+	}
+	m.esContexts[uint32(es.ElementaryPID)] = ctx
 	// invalidate pmt cache
 	m.pmtBytes.Reset()
 	m.pmtUpdated = true
@@ -161,6 +170,12 @@ func (m *Muxer) RemoveElementaryStream(pid uint16) error {
 	}
 
 	m.pmt.ElementaryStreams = append(m.pmt.ElementaryStreams[:foundIdx], m.pmt.ElementaryStreams[foundIdx+1:]...)
+	if ctx, ok := m.esContexts[uint32(pid)]; ok {
+		if m.removedCCs == nil {
+			m.removedCCs = map[uint32]wrappingCounter{}
+		}
+		m.removedCCs[uint32(pid)] = ctx.cc
+	}
 	delete(m.esContexts, uint32(pid))
 	m.pmtBytes.Reset()
 	m.pmtUpdated = true
